@@ -481,13 +481,15 @@ def run(tier: str) -> Run:
             c = i.call_function(repo.func(MOD, 'CIF.with_reduced_powder_data'), [symbolic_data(i, cm, 'tof', 'us', True, True)], {}, bound=c)
             cal = symbolic_data(i, cm, 'cal', 'us', False, False, powers6)
             c = i.call_function(repo.func(MOD, 'CIF.with_powder_calibration'), [cal], {}, bound=c)
+            c = i.call_function(repo.func(MOD, 'CIF.with_reducers'), ['reduction software 1.0'], {}, bound=c)
             return i.call_function(repo.func(MOD, 'CIF.with_authors'), [Person('A', 'lead', True), Person('B', 'dev')], {}, bound=c)
         outs, items = written_items(repo, cit, build6, via=via)
         tables = [item_table(x) for x in items]
         have = {'reduced data': any('pd_meas.time_of_flight' in t_ for t_ in tables), 'calibration': any('pd_calib_d_to_tof.coeff' in t_ for t_ in tables),
-                'contact author': any('audit_contact_author.name' in t_ for t_ in tables), 'author': any('audit_author.name' in t_ for t_ in tables)}
+                'contact author': any('audit_contact_author.name' in t_ for t_ in tables), 'author': any('audit_author.name' in t_ for t_ in tables),
+                'reducer': any(t_.get('computing.diffrn_reduction') == 'reduction software 1.0' for t_ in tables)}
         ok = len(outs) == 1 and outs[0].kind == 'return' and all(have.values())
-        r6.check(ok, f'reduced data, then calibration, then authors, saved through {via}', where_of(repo, MOD, 'CIF.copy', 'CIF.save'),
+        r6.check(ok, f'reduced data, then calibration, then a reducer, then authors, saved through {via}', where_of(repo, MOD, 'CIF.copy', 'CIF.save'),
                  {'written': have, 'outcomes': [(o.kind, o.exc_type, o.where) for o in outs], 'items_written': len(items)}, key=f'sequence:{via}')
 
     # ---- R5 numbers with a standard uncertainty ------------------------------------------------------------
